@@ -233,6 +233,7 @@ impl Store {
     /// `last_dependent_access`.
     pub(super) fn more_dependent_accesses(&self, operation: Operation) -> &[Option<Access>] {
         match &self.entries[operation.obj.index] {
+            Entry::Arc(entry) => entry.more_dependent_accesses(operation.action.into()),
             Entry::Atomic(entry) => entry.last_dependent_loads(operation.action.into()),
             Entry::Channel(entry) => entry.more_dependent_accesses(operation.action.into()),
             _ => &[],
@@ -247,7 +248,9 @@ impl Store {
         dpor_vv: &VersionVec,
     ) {
         match &mut self.entries[operation.obj.index] {
-            Entry::Arc(entry) => entry.set_last_access(operation.action.into(), path_id, dpor_vv),
+            Entry::Arc(entry) => {
+                entry.set_last_access(operation.action.into(), thread, path_id, dpor_vv)
+            }
             Entry::Atomic(entry) => {
                 entry.set_last_access(operation.action.into(), thread, path_id, dpor_vv)
             }
